@@ -15,9 +15,20 @@ FastaIndex(path).auto_load(); it must raise or show exactly that.
     reached the OS is lost, completed operations persist.  Then the parent observes.
 (c) two "processes" (threads with separate fake pids, gated so that exactly one runs at a time) auto-load the same
     FASTA; the schedule switches at file-operation boundaries with at most two preemptions.
+(d) indexing runs interrupted by an *exception* instead of a kill: at file operation k (the operations of (b) plus every
+    write() call on the text handle of a cache file, i.e. between any two rows) the run receives KeyboardInterrupt (a real
+    SIGINT when the check runs in the main thread), OSError(ENOSPC) or SystemExit.  The stack unwinds through the writing
+    code, so whatever it does in except / finally / __exit__ happens.  Then a fresh auto-load is judged.
+(e) several index / rewrite cycles inside ONE process: histories over {rewrite with a different size, rewrite with the SAME
+    size in bytes (other names, lengths, offsets, gaps), delete the cache, auto-load on a new object, auto-load on one
+    long-lived object, run_indexing() on a new object, run_indexing() on the long-lived object}; every result is judged
+    against the FASTA bytes, so state carried from one indexing run to the next inside the process shows.
+After (a), (d) and (e) the cache files themselves are read with this module's own parsers: if both exist and are strictly
+newer than the FASTA (what any later process will take as valid) they must describe the FASTA bytes.
 """
 
 import builtins
+import errno
 import functools
 import io
 import itertools
@@ -26,6 +37,7 @@ import os
 import pathlib
 import random
 import shutil
+import signal
 import tempfile
 import threading
 import time
@@ -116,24 +128,133 @@ def make_fasta(version, big=False):
     return "".join(out).encode()
 
 
-def observe(path):
-    """one fresh auto-load: ('ok', index, assembly) or ('raised', text)"""
+@functools.lru_cache(maxsize=64)
+def make_fasta_ss(family, j):
+    """
+    Same-size family: make_fasta_ss(family, 0), (family, 1), ... all have the same size in bytes (same header lengths,
+    same number of residues, same number of lines), but consecutive members differ in the sequence names (every third
+    step), in the lengths of the first two records (bases move between their last lines, so offsets move too) and in
+    the residues and gap positions.
+    """
+    rng = random.Random(family * 104729 + 17)
+    n_seq = 2 + family % 2
+    width = 8 + family % 5
+    full = [rng.randint(0, 3) for _ in range(n_seq)]
+    rem = [rng.randint(2, width - 2) for _ in range(n_seq)]
+    shift = j % 3 - 1
+    rem[0] += shift
+    rem[1] -= shift
+    letter = "abcd"[(j // 3) % 4]
+    crng = random.Random(family * 104729 + 1000 + j)
+    out = []
+    for i in range(n_seq):
+        n = full[i] * width + rem[i]
+        seq = [crng.choice("ACGTacgt") for _ in range(n)]
+        at = crng.randint(0, n - 1)
+        for p in range(at, min(n, at + crng.randint(0, 4))):
+            seq[p] = "N"
+        seq = "".join(seq)
+        out.append(f">q{i + 1}{letter}_{family} same-size family\n")
+        for p in range(0, n, width):
+            out.append(seq[p : p + width] + "\n")
+    return "".join(out).encode()
+
+
+class Content:
+    """the FASTA content of a history: rewrites either change the size in bytes or keep it"""
+
+    def __init__(self, same_size_family):
+        self.ss = same_size_family
+        self.version = 0
+        self.j = 0
+
+    @property
+    def data(self):
+        return make_fasta_ss(self.version, self.j) if self.ss else make_fasta(self.version)
+
+    def rewrite(self, same_size):
+        if not self.ss:
+            if same_size:
+                raise ValueError("same-size rewrites need gen='ss'")
+            self.version += 1
+        elif same_size:
+            self.j += 1
+        else:
+            size = len(self.data)
+            self.j = 0
+            self.version += 1
+            while len(self.data) == size:
+                self.version += 1
+        return self.data
+
+
+def snapshot(fai):
+    """(index, assembly) of a FastaIndex object as plain lists"""
+    index = [[name, i.length, i.file_offset, i.residues_per_line, i.max_line_length] for name, i in fai.index.items()]
+    asm = []
+    for sc in fai.assembly.scaffolds:
+        rows = []
+        for r in sc.rows:
+            if hasattr(r, "gap_type"):
+                rows.append(["G", r.length, r.gap_type])
+            else:
+                rows.append(["F", r.name, r.start, r.end, r.strand])
+        asm.append([sc.name, rows])
+    return index, asm
+
+
+def observe(path, obj=None, method="auto_load"):
+    """
+    one load: ('ok', index, assembly) or ('raised', text).  Default: auto_load() of a fresh FastaIndex; obj: a FastaIndex
+    object to (re)use; method: 'auto_load' or 'run_indexing'.
+    """
     try:
-        fai = FastaIndex(pathlib.Path(path))
-        fai.auto_load()
-        index = [[name, i.length, i.file_offset, i.residues_per_line, i.max_line_length] for name, i in fai.index.items()]
-        asm = []
-        for sc in fai.assembly.scaffolds:
-            rows = []
-            for r in sc.rows:
-                if hasattr(r, "gap_type"):
-                    rows.append(["G", r.length, r.gap_type])
-                else:
-                    rows.append(["F", r.name, r.start, r.end, r.strand])
-            asm.append([sc.name, rows])
-        return ("ok", index, asm)
+        fai = FastaIndex(pathlib.Path(path)) if obj is None else obj
+        getattr(fai, method)()
+        return ("ok", *snapshot(fai))
     except Exception as e:
         return ("raised", f"{type(e).__name__}: {e}")
+
+
+def cache_on_disk_claim(fa, data):
+    """
+    What a later process finds: if <fa>.fai and <fa>.agp both exist and are strictly newer than the FASTA they pass for
+    valid, so (read with the parsers below, not the library's) they must describe `data`.  None if there is no such
+    claim, the files are not parseable (a reader fails loudly) or they are right; else a message.
+    """
+    try:
+        st = os.stat(fa)
+        if not all(os.stat(fa + ext).st_mtime > st.st_mtime for ext in (".fai", ".agp")):
+            return None
+        with open(fa + ".fai") as fh:
+            fai_lines = fh.read().splitlines()
+        with open(fa + ".agp") as fh:
+            agp_lines = fh.read().splitlines()
+    except FileNotFoundError:
+        return None
+    try:
+        index = []
+        for line in fai_lines:
+            name, *nums = line.split()
+            if len(nums) != 4:
+                return None
+            index.append([name] + [int(x) for x in nums])
+        asm = []
+        for line in agp_lines:
+            if not line.strip() or line.startswith("#"):
+                continue
+            c = line.split("\t")
+            if len(c) < 9:
+                return None
+            if not asm or asm[-1][0] != c[0]:
+                asm.append([c[0], []])
+            if c[4] in ("U", "N"):
+                asm[-1][1].append(["G", int(c[5]), c[6]])
+            else:
+                asm[-1][1].append(["F", c[5], int(c[6]), int(c[7]), {"+": 1, "-": -1}.get(c[8], 0)])
+    except ValueError:
+        return None
+    return judge(("ok", index, asm), data)
 
 
 def judge(obs, data):
@@ -174,18 +295,34 @@ class EventFileIO(io.FileIO):
         return super().readall()
 
     def close(self):
-        if not self.closed and self._writing:
-            self._hook("close", self._path)
-        super().close()
+        try:
+            if not self.closed and self._writing:
+                self._hook("close", self._path)
+        finally:
+            super().close()  # a hook that raises models close(2) reporting an error: the descriptor is released anyway
+
+
+class EventText(io.TextIOWrapper):
+    """text handle of a file opened for writing: every write() call is an event (nothing reaches the OS here)"""
+
+    def __init__(self, buf, hook, path, **kw):
+        super().__init__(buf, **kw)
+        self._hook = hook
+        self._path = path
+
+    def write(self, s):
+        self._hook("text-write", self._path)
+        return super().write(s)
 
 
 class FileOps:
     """context manager: file operations on paths under `watch` call hook(label, path) first"""
 
-    def __init__(self, watch, hook, pid_of=None):
+    def __init__(self, watch, hook, pid_of=None, text_events=False):
         self.watch = str(watch)
         self.hook = hook
         self.pid_of = pid_of
+        self.text_events = text_events  # also report write() calls on text handles (exception injection points)
         self.saved = {}
 
     def watched(self, p):
@@ -220,6 +357,8 @@ class FileOps:
                 buf = io.BufferedWriter(raw)
             if "b" in mode:
                 return buf
+            if self.text_events and rawmode != "r":
+                return EventText(buf, self.hook, os.fspath(file), encoding=io.text_encoding(encoding), errors=errors, newline=newline)
             return io.TextIOWrapper(buf, encoding=io.text_encoding(encoding), errors=errors, newline=newline)
 
         def wrap2(name, label):
@@ -365,7 +504,7 @@ def setup_scenario(d, scenario, big):
     return fa, cur
 
 
-def count_events(scenario, big):
+def count_events(scenario, big, text_events=False):
     n = [0]
     labels = []
 
@@ -375,7 +514,7 @@ def count_events(scenario, big):
 
     with tempfile.TemporaryDirectory() as d:
         fa, _ = setup_scenario(d, scenario, big)
-        with FileOps(d, hook):
+        with FileOps(d, hook, text_events=text_events):
             observe(fa)
     return n[0], labels
 
